@@ -242,7 +242,9 @@ def harness(cfg, ns):
                 if prev_end is not None:
                     ctx.solver.add(a.e >= prev_end.e)        # intervals of one tier do not overlap (format invariant)
                 prev_end = b
-                mark = ["m%d%d" % (t, i), ""][(t + i) % 2] if i == 1 else "m%d%d" % (t, i)
+                # marks: a blank-only one and one padded with blanks (both are non-empty annotations and are the label, blanks included),
+                # an empty one, a plain one
+                mark = ["m%d%d" % (t, i), ""][(t + i) % 2] if i == 1 else [" ", " m%d%d " % (t, i)][t % 2]
                 ivs.append((a, b, mark))
                 inputs += [a, b]
             T[f"t{t}"] = ivs
